@@ -622,6 +622,7 @@ class CtxEngine(object):
                 self.do_update(stack)
             elif k == 4 and depth > 0:
                 self.w.probe("exit_by_exception")
+                self.w.fault("exception_in_with_body")
                 self.w.ops.append("raise (caught %d levels up)" % 0)
                 raise Boom(self.t.draw(depth))
 
